@@ -26,28 +26,35 @@ from harness.core import MachineryError
 from harness.props.c03 import read_vcat
 
 T_INVARIANTS = ('ShapeKept', 'NaNKept', 'RankTheorems', 'RankIdempotent', 'PositiveTheorems', 'MinMaxTheorems',
-                'GeoTheorems', 'GeodesicTheorems', 'CustomTheorems')
+                'GeoTheorems', 'GeodesicTheorems', 'CustomTheorems', 'RankAfterIncreasing', 'ChainFaithful')
 
 
-def tcfg(nc, voff, vspan, maxnan, stacks, transforms='TrAll', emitmod=1):
+def tcfg(nc, voff, vspan, maxnan, stacks, transforms='TrAll', emitmod=1, maxchain=1, chaintr='NoChain',
+         gen=0):
+    """gen = 0: stacks enumerated from `stacks`; gen = k > 0: generator mode (tlc -simulate), 1..k RDMs"""
     lines = ['CONSTANTS', f'  NC = {nc}', f'  VOff = {voff}', f'  VSpan = {vspan}', f'  MaxNaN = {maxnan}',
              f"  TwoRdm = {'TRUE' if stacks == 'Stacks12' else 'FALSE'}",
              f'  Stacks <- {stacks}', f'  Transforms <- {transforms}',
              '  MeasClasses = {"none", "plain", "sqeuclid", "ranked"}', '  NaNv <- NaNvDef',
+             f'  MaxChain = {maxchain}', f'  ChainTransforms <- {chaintr}',
+             f"  GenMode = {'TRUE' if gen else 'FALSE'}", f'  GenNR = {max(gen, 1)}', '  GenVals <- GenValsDef',
              f'  EmitMod = {emitmod}', 'INIT Init', 'NEXT Next']
     lines += [f'INVARIANT {i}' for i in T_INVARIANTS] + ['INVARIANT Emit', 'CHECK_DEADLOCK FALSE']
     return '\n'.join(lines) + '\n'
 
 
-def transform_run(ctx, pool, name, *a, **kw):
-    r = ctx.tlc('MC_Transform', tcfg(*a, **kw), name=name, timeout=1700)
+def transform_run(ctx, pool, name, *a, structure=False, simulate=None, depth=None, seed=None, **kw):
+    tl = dict(simulate=simulate, depth=depth) if simulate else {}
+    if seed is not None:
+        tl['seed'] = seed
+    r = ctx.tlc('MC_Transform', tcfg(*a, **kw), name=name, timeout=1700, **tl)
     if not r.n_emitted:
         raise MachineryError(f'{name}: TLC emitted no test vectors')
     # kernel cross-check: the array-form definitions of the float tier agree with the exact rationals
     seen = set()
     k = 0
     for rec in r.iter_emitted():
-        if rec['tr']['n'] in ('minmax', 'geodesic', 'geotopo'):
+        if len(rec['chain']) == 1 and rec['tr']['n'] in ('minmax', 'geodesic', 'geotopo'):
             k += 1
             if k % 7 == 0 or rec['tr']['n'] not in seen:
                 seen.add(rec['tr']['n'])
@@ -55,7 +62,7 @@ def transform_run(ctx, pool, name, *a, **kw):
                     raise MachineryError(f'array-form definition disagrees with Transform.tla on {rec}')
     # binding self-test: one expected entry of the first vector changed -> the replay must notice
     import copy
-    first = next(r.iter_emitted())
+    first = next(o for o in r.iter_emitted() if len(o['chain']) == 1)
     bad = copy.deepcopy(first)
     p0 = bad['out'][0][0]
     bad['out'][0][0] = [p0[0] + 1, p0[1]] if p0[1] else [1, 1]
@@ -69,9 +76,9 @@ def transform_run(ctx, pool, name, *a, **kw):
     def jobs():
         base = 0
         for chunk in r.iter_lines(200):
-            yield (base, chunk)
+            yield (base, chunk, structure)
             base += len(chunk)
-    for cnt, nev, nt, bad in pool.imap_unordered(T.replay_chunk, jobs()):
+    for cnt, nev, nt, bad in pool.imap_unordered(T.chain_chunk, jobs()):
         n += cnt
         ctx.count(nev)
         ctx.nontrivial_extra += nt
@@ -216,19 +223,38 @@ def run(ctx):
                        'weaker reading of "its two quantile thresholds"',
                        'sqrt is decided by the relation out^2 = max(x,0), out >= 0 and the float kernel math.sqrt',
                        'measure name: must differ from the source name (rank of already ranked RDMs excepted)']
-    ctx.exhaustive = True
+    ctx.exhaustive = False
     with mp.Pool(16) as pool:
-        # clauses a-g
+        # clauses a-g, single transforms
         transform_run(ctx, pool, 'tr3', 3, 2, 5, 1, 'Stacks12')
         if thorough:
-            transform_run(ctx, pool, 'tr4', 4, 0, 2, 1, 'Stacks12')
-            transform_run(ctx, pool, 'tr4wide', 4, 2, 5, 0, 'Stacks1Full', transforms='TrScale', emitmod=2)
-            ctx.exhaustive = False
+            # all quantile pairs incl. the boundary ones (low = 0 / up = 1 alone, low = up), two-RDM stacks
+            transform_run(ctx, pool, 'tr3wide', 3, 2, 5, 2, 'Stacks12', transforms='TrAllWide')
+            transform_run(ctx, pool, 'tr4', 4, 0, 2, 1, 'Stacks12', transforms='TrAllWide')
+            # heavy ties (binary RDMs), up to two missing entries: every rank method
+            transform_run(ctx, pool, 'tr4ties', 4, 0, 1, 2, 'Stacks1', transforms='TrAllWide')
+            transform_run(ctx, pool, 'tr4wide', 4, 2, 5, 0, 'Stacks1Full', transforms='TrScaleWide', emitmod=4)
+            # chains of up to three transforms, then subset / subsample / concat and a comparison
+            transform_run(ctx, pool, 'chain3', 3, 2, 5, 1, 'Stacks1', transforms='TrAll', maxchain=3, chaintr='TrChain',
+                          emitmod=6, structure=True)
+            transform_run(ctx, pool, 'chain4', 4, 0, 2, 0, 'Stacks1', transforms='TrAllWide', maxchain=2, chaintr='TrChain',
+                          emitmod=3, structure=True)
+            # random walks (tlc -simulate, three seeds): 1-3 RDMs over FIVE conditions built entry by entry
+            # (with or without missing entries), chains of up to three transforms
+            for k in range(3):
+                transform_run(ctx, pool, f'sim5_{k}', 5, 2, 5, 0, 'Stacks1', transforms='TrAllWide', maxchain=3,
+                              chaintr='TrChain', gen=3, emitmod=3, structure=True, simulate='num=60', depth=40,
+                              seed=ctx.seed * 101 + 13 * k + 1)
+            transform_run(ctx, pool, 'sim6', 6, 1, 3, 0, 'Stacks1', transforms='TrAllWide', maxchain=2,
+                          chaintr='TrChain', gen=2, emitmod=4, structure=True, simulate='num=20', depth=40,
+                          seed=ctx.seed * 101 + 7)
         else:
             transform_run(ctx, pool, 'tr4', 4, 0, 2, 1, 'Stacks1', emitmod=2)
-            ctx.exhaustive = False
+            # a small sample of chains keeps the chain machinery exercised in the quick tier
+            transform_run(ctx, pool, 'chain3', 3, 1, 3, 0, 'Stacks1', transforms='TrAll', maxchain=2, chaintr='TrChain',
+                          emitmod=5, structure=True)
         nev = 0
-        for ne, bad in pool.imap_unordered(T.float_case, [ctx.seed * 7919 + i for i in range(3000 if thorough else 300)], chunksize=8):
+        for ne, bad in pool.imap_unordered(T.float_case, [ctx.seed * 7919 + i for i in range(6000 if thorough else 300)], chunksize=8):
             nev += ne
             for key, what, case in bad:
                 ctx.violation(key, what, case)
@@ -242,6 +268,8 @@ def run(ctx):
         if thorough:
             compare_run(ctx, pool, 'inv4', 4, voff=0, vspan=2, vecsb='VecsBSub', movevecs='MoveVecsSub', methods=nb,
                         moves=('mono', 'scale', 'affine'), monohi=3, emitmod=12, moveemitmod=8)
+            # Bures similarity: invariant under a rescaling of either RDM (through the real transform objects)
+            compare_run(ctx, pool, 'invb', 3, methods=('bures',), px=2, py=1, moves=(), emitmod=12, moveemitmod=1)
         else:
             compare_run(ctx, pool, 'inv4', 4, voff=0, vspan=1, movevecs='MoveVecsSub', methods=nb,
                         moves=('mono', 'scale', 'affine'), monohi=3, emitmod=8, moveemitmod=2)
@@ -250,7 +278,9 @@ def run(ctx):
         compare_run(ctx, pool, 'inv4s', 4, voff=1, vspan=3, vecs='StackVecs', movevecs='StackVecs', methods=nb,
                     moves=('mono', 'scale', 'affine'), monohi=4, emitmod=1, moveemitmod=4)
         tot = sk = 0
-        for nc, ntr in ((5, 1500 if thorough else 200), (6, 1000 if thorough else 100)):
+        for nc, ntr in ((5, 2500 if thorough else 200), (6, 2000 if thorough else 100), (7, 800 if thorough else 0)):
+            if not ntr:
+                continue
             n, s = inv_traces(ctx, pool, nc, ntr)
             tot, sk = tot + n, sk + s
         ctx.extra['recorded_sessions_validated'] = tot
